@@ -52,6 +52,7 @@ struct Event {
 struct Observer {
   virtual ~Observer() {}
   virtual void on_event(const Event &e) = 0;
+  virtual void on_idle(int64_t from, int64_t to) {}   // everything is blocked; the clock is about to jump
 };
 
 // ---------------------------------------------------------------- choices
@@ -257,6 +258,7 @@ struct Kernel {
   uint64_t seq = 0;           // event sequence
   uint64_t steps = 0;         // yield points
   int64_t last_clock_seen = 0; uint64_t steps_at_clock = 0;
+  int64_t idle_total = 0;     // sum of idle clock jumps (time that passed while every process was blocked)
   Hash64 trace_hash;
   std::map<uint64_t, Inode *> inodes; uint64_t next_ino = 100; Inode *root = nullptr;
   std::map<int, Proc *> procs; int next_pid = 300;
